@@ -4,7 +4,7 @@ syntax is translated into a Coq term; one coqc call evaluates a batch and prints
 import os, re, subprocess, tempfile
 import lib
 
-SUPPORTED = ('DEC', 'DEC0', 'AVPS', 'TYPE', 'ENC', 'ENCA')
+SUPPORTED = ('DEC', 'DEC0', 'AVPS', 'TYPE', 'ENC', 'ENCA', 'HIDE', 'REVEAL', 'MD5')
 MAX_OCTETS = 3000
 
 
@@ -132,6 +132,12 @@ def case_term(line):
             return 'ch_enc %s %s' % (msg_term(f[1]), coq_bytes(f[2] if len(f) > 2 else ''))
         if ch == 'ENCA':
             return 'ch_enca %s %s' % (avp_term(f[1]), coq_bytes(f[2] if len(f) > 2 else ''))
+        if ch == 'HIDE':
+            return 'ch_hide %s %s %s %s %s' % (avp_term(f[1]), coq_bytes(f[2]), coq_bytes(f[3]), coq_bytes(f[4]), coq_bytes(f[5]))
+        if ch == 'REVEAL':
+            return 'ch_reveal %s %s %s' % (avp_term(f[1]), coq_bytes(f[2]), coq_bytes(f[3]))
+        if ch == 'MD5':
+            return 'ch_md5 %s' % coq_bytes(f[1])
     except (ValueError, IndexError):
         return None
     return None
